@@ -606,6 +606,9 @@ def handle : Handler := fun input impl =>
   -- the machine ran out of local ports while the case ran (many checks share it): nothing was observed about the guns
   if impl.startsWith "INCONCLUSIVE" || impl.startsWith "PANIC listen tcp" then ("-", "skip:inconclusive")
   else if impl == "HANG" then ("-", "fail:hang:driver case timed out")
+  -- the child process that ran the engine case died (harness: child.go): a panic outside Shoot's recover (transport /
+  -- aggregator goroutine, Bind) or a fatal runtime error took the whole generator down
+  else if impl.startsWith "CRASH" then ("-", s!"fail:crash:{impl.take 200}")
   else match getS kv "k" with
   | "mod" => handleMod kv impl
   | "assert" => handleAssert kv impl
